@@ -120,8 +120,9 @@ def run_item(item):
            'commit-only': '{commit:<8}', 'author-commit': '{author:>16}¦{commit:<8}',
            # a precision is a maximal number of characters (delta's own default format has one: {author:<15.14})
            'author-prec14': '{commit:<8}¦{author:<15.14}¦{timestamp:<16}', 'author-prec5': '{author:<10.5}¦{commit:<8}'}[fmt_cls]
-    sepcls = rng.choice(['every', 'every', 'block', 'none'])
-    sepfmt = {'every': '‖{n:^5}‖', 'block': '‖{n:^5_block}‖', 'none': 'none'}[sepcls]
+    sepcls = rng.choice(['every', 'every', 'block', 'none', 'every-2', 'every-3', 'every-5'])
+    sepfmt = {'every': '‖{n:^5}‖', 'block': '‖{n:^5_block}‖', 'none': 'none', 'every-2': '‖{n:^5_every-2}‖', 'every-3': '‖{n:>5_every-3}‖',
+              'every-5': '‖{n:^5_every-5}‖'}[sepcls]
     tabs = rng.choice([8, 4, 2])
     with_zone = rng.random() < 0.5
     tsfmt = '%Y-%m-%d %H:%M' + (' %z' if with_zone else '')
@@ -193,6 +194,12 @@ def run_item(item):
         if sepcls == 'every':
             if numtxt.strip() != str(l['lineno']):
                 return bad('line-number', 'line number of blame line %d differs' % (i + 1), l['lineno'], numtxt)
+        elif sepcls.startswith('every-'):
+            # the number of the first line of a block, and inside a block of every N-th line
+            n_ = int(sepcls.split('-')[1])
+            want_num = str(l['lineno']) if (not repeat or l['lineno'] % n_ == 0) else ''
+            if numtxt.strip() != want_num:
+                return bad('line-number-every-n', 'line number field of blame line %d under %s (first line of its block: %s)' % (i + 1, sepcls, not repeat), want_num, numtxt)
         elif sepcls == 'block':
             if repeat:
                 if numtxt.strip() != '':
